@@ -56,6 +56,14 @@ func newWorldA(r *Run) *worldA {
 	w := &worldA{r: r, events: map[string][]byte{}, acked: map[uint64]*balloon.Snapshot{}}
 	w.e = newEnv(r, n)
 	w.e.onApplied = w.checkApplied
+	r.failNote = func() string {
+		for _, nd := range w.e.nodes {
+			if nd.tainted {
+				return "[UNFINISHED-INSTALL: node " + nd.name + " restarted on a raft snapshot whose state transfer never completed] "
+			}
+		}
+		return ""
+	}
 	for _, nd := range w.e.nodes {
 		w.e.startNode(nd)
 	}
@@ -154,6 +162,26 @@ func genWorldA(seed uint64, tier string, prop string, prof *profile) *Tape {
 				Step{Op: "add", K: 1 + rng.IntN(3), Kind: "api", Data: "sync"},
 				Step{Op: "snap", Node: -1},
 				Step{Op: "start", Node: node})
+		case "laginst":
+			// a follower falls behind past compaction and is then brought back by a
+			// state transfer that meets a fault; afterwards either the same leader
+			// retries or a new term begins / the follower restarts
+			t.Steps = append(t.Steps, Step{Op: "stop", Node: node, Kind: pick(rng, prof.stopModes)},
+				Step{Op: "add", K: 1 + rng.IntN(4), Kind: "api", Data: "sync"},
+				Step{Op: "add", K: 1 + rng.IntN(3), Kind: "api", Data: "sync"},
+				Step{Op: "add", K: 1 + rng.IntN(2), Kind: "api", Data: "sync"},
+				Step{Op: "snap", Node: -1},
+				Step{Op: "start", Node: node},
+				Step{Op: "inst", Node: node, Kind: pick(rng, prof.instFaults), K: rng.IntN(3)})
+			switch rng.IntN(4) {
+			case 0:
+				t.Steps = append(t.Steps, Step{Op: "stop", Node: node, Kind: "crash"}, Step{Op: "start", Node: node})
+			case 1:
+				t.Steps = append(t.Steps, Step{Op: "elect", Node: rng.IntN(n)})
+			case 2:
+				t.Steps = append(t.Steps, Step{Op: "inst", Node: node, Kind: "", K: 0})
+			}
+			t.Steps = append(t.Steps, Step{Op: "add", K: 1 + rng.IntN(3), Kind: "api", Data: "sync"})
 		case "join":
 			t.Steps = append(t.Steps, Step{Op: "join"})
 		case "qmem":
@@ -162,6 +190,14 @@ func genWorldA(seed uint64, tier string, prop string, prof *profile) *Tape {
 			t.Steps = append(t.Steps, Step{Op: "qinc", Node: node, K: 6 + rng.IntN(20)})
 		case "agree":
 			t.Steps = append(t.Steps, Step{Op: "agree"})
+		case "qver":
+			t.Steps = append(t.Steps, Step{Op: "qver", Node: node})
+		case "gapfetch":
+			t.Steps = append(t.Steps, Step{Op: "gapfetch", K: rng.IntN(4), X: int64(rng.IntN(3))})
+		default:
+			if op != "" {
+				t.Steps = append(t.Steps, Step{Op: op, Node: node, K: rng.IntN(8), X: int64(rng.IntN(1 << 16))})
+			}
 		}
 	}
 	t.Steps = append(t.Steps, Step{Op: "heal"})
@@ -586,9 +622,27 @@ func (w *worldA) checkAgreement(oracle string) {
 	type key struct{ idx uint64 }
 	groups := map[uint64][]*simNode{}
 	for _, nd := range e.nodes {
+		if nd.up && nd.pendingInstall != 0 && !nd.tainted {
+			// a state transfer to this node failed part-way and has not been
+			// retried yet: it has not "applied the log up to some entry"; the
+			// heal phase must bring it back (liveness oracle).
+			w.r.Count("probe.agreement_skipped_midtransfer")
+			continue
+		}
 		if nd.up {
-			// last applied *command or configuration* index: trailing noops do not count
-			groups[w.lastCmdIndex(nd)] = append(groups[w.lastCmdIndex(nd)], nd)
+			// Group by the last *command* the node holds: trailing noops do not
+			// count. A restarted node durably holds more than raft has re-applied
+			// in this incarnation, so the persisted FSM index is the position; it
+			// may never be behind what raft applied in this incarnation.
+			si, _ := nd.rn.SimState()
+			lc := w.lastCmdIndex(nd)
+			if si < lc {
+				w.r.Fail(oracle, "node %s applied the log up to command entry %d but its persisted state says entry %d", nd.name, lc, si)
+			}
+			if ce := e.committed[si]; si != 0 && (ce == nil || !ce.isAdd) {
+				w.r.Fail(oracle, "node %s persisted state names entry %d, which is not a committed insertion", nd.name, si)
+			}
+			groups[si] = append(groups[si], nd)
 		}
 	}
 	var idxs []uint64
